@@ -2,6 +2,7 @@ import PoolProofs.BatchLemmas
 import PoolProofs.BatchSpec
 import PoolProofs.BatchExamples
 import PoolProofs.BatchPerm
+import PoolProofs.BatchParse
 /-!
 # C01 — an accepted batch honours each order's price, size and counterparty terms
 
@@ -106,6 +107,24 @@ theorem C01_acceptsWith_self (env : Env) (rules : Rules) (b : Batch) (best : UIn
   cases verify env rules b best with
   | error e => simp [isOk]
   | ok st => cases nodeFilter env b.matched <;> simp [isOk]
+
+/-- **Bucket check.** For a batch that came out of `ParseRPCBatch` and was accepted, every order with at least one
+match has a *published* clearing price for its duration (the `ClearingPrices` key exists – the price compared with
+our rate in `HonoursTerms` is the auctioneer's, not Go's map default 0). -/
+theorem C01_clearing_price_published (env : Env) (rules : Rules) (m : PrepareMsg) (b : Batch) (best : UInt32)
+    (pending : Option String) (st : Tallies) (hp : parseRPCBatch m = .ok b) (hw : WireRanges b)
+    (h : (orderMatchValidate env rules b best pending).1 = .ok st) :
+    ∀ nm ∈ b.matched, nm.2 ≠ [] → ∃ o, findOrder nm.1 env.orders = some o ∧
+      (b.clearing.lookup o.duration).isSome = true := by
+  intro nm hnm hne
+  obtain ⟨_, _, hall⟩ := C01_accept_honours_terms env rules b best pending st hw h
+  obtain ⟨o, ho, hm, _⟩ := hall nm hnm
+  refine ⟨o, ho, ?_⟩
+  obtain ⟨t, ts, hts⟩ := List.exists_cons_of_ne_nil hne
+  have ht : t ∈ nm.2 := by rw [hts]; exact List.mem_cons_self
+  have hd := (hm t ht).2.1
+  rw [← hd]
+  exact parse_clearing_published m b hp nm hnm t ht
 
 /-- the uint32 wrap-around of `hint-3` / `hint+3` can only reject: acceptance implies the integer window -/
 theorem C01_height_window (best hint : UInt32) (h : heightOk best hint = true) :
